@@ -50,13 +50,13 @@ Proof.
   - cbn in *. assert (n = 0) by lia. subst. split; [reflexivity|constructor].
   - cbn [print_u]. destruct (n <? 10) eqn:E.
     + assert (0 <= n <= 9) by lia. split.
-      * unfold horner; cbn. unfold c0. rewrite digit_val_dec by lia. lia.
+      * unfold horner. cbn [fold_left]. unfold c0. rewrite digit_val_dec by lia. lia.
       * constructor; [|constructor]. unfold is_digit, c0. rewrite digit_val_dec by lia. lia.
     + assert (Hq : 0 <= n / 10 < 2 ^ Z.of_nat f).
       { rewrite Nat2Z.inj_succ, Z.pow_succ_r in Hn by lia. split; [apply Z.div_pos; lia|].
         apply Z.div_lt_upper_bound; lia. }
       destruct (IH _ Hq) as [H1 H2]. split.
-      * rewrite horner_app, H1. unfold horner; cbn. unfold c0.
+      * rewrite horner_app, H1. unfold horner. cbn [fold_left]. unfold c0.
         rewrite digit_val_dec by (pose proof (Z.mod_pos_bound n 10); lia).
         pose proof (Z.div_mod n 10). lia.
       * apply Forall_app. split; [exact H2|]. constructor; [|constructor]. unfold is_digit, c0.
@@ -100,6 +100,23 @@ Proof.
   intros H. unfold split_base, c0. destruct r as [|x [|h t]]; replace (48 + d =? 48) with false by lia; reflexivity.
 Qed.
 
+Lemma strtol_steps s s1 neg s2 base s3 :
+  lstrip s = s1 -> split_sign s1 = (neg, s2) -> split_base s2 = (base, s3) ->
+  strtol s = clamp_long neg (acc_digits base 0 s3).
+Proof. intros H1 H2 H3. unfold strtol. rewrite H1, H2, H3. reflexivity. Qed.
+
+Lemma lstrip_nonspace c r : is_space c = false -> lstrip (c :: r) = c :: r.
+Proof. intros H. unfold lstrip. cbn [drop_while]. rewrite H. reflexivity. Qed.
+
+Lemma split_sign_none c r : c <> cMINUS -> c <> cPLUS -> split_sign (c :: r) = (false, c :: r).
+Proof.
+  intros H1 H2. unfold split_sign. destruct (Z.eqb_spec c cMINUS); [contradiction|].
+  destruct (Z.eqb_spec c cPLUS); [contradiction|]. reflexivity.
+Qed.
+
+Lemma split_sign_minus r : split_sign (cMINUS :: r) = (true, r).
+Proof. reflexivity. Qed.
+
 (* unsigned decimal text, followed by anything that is not a decimal digit or a letter *)
 Lemma strtol_udec n rest : 0 <= n -> (match rest with [] => True | c :: _ => digit_val c = 99 end) ->
   strtol (print_udec n ++ rest) = clamp_long false n.
@@ -108,22 +125,24 @@ Proof.
   assert (Hstop : forall b, b <= 16 -> stops b rest).
   { intros b Hb. destruct rest; [exact I|]. cbn in *. lia. }
   destruct (Z.eq_dec n 0) as [->|Hnz].
-  - rewrite print_udec_0. unfold strtol. cbn [app lstrip drop_while is_space]. cbn [Z.eqb orb andb Z.leb Z.compare].
-    unfold split_sign, cMINUS, cPLUS. cbn [Z.eqb].
+  - rewrite print_udec_0. cbn [app].
     assert (Hb : split_base (48 :: rest) = (8, 48 :: rest)).
     { unfold split_base, c0. destruct rest as [|x [|h t]]; try reflexivity. cbn [Z.eqb].
       cbn in Hrest. replace ((x =? 120) || (x =? 88)) with false; [reflexivity|].
       unfold digit_val in Hrest. destruct (Z.eqb_spec x 120) as [->|]; [discriminate Hrest|].
       destruct (Z.eqb_spec x 88) as [->|]; [discriminate Hrest|]. reflexivity. }
-    rewrite Hb. cbn [acc_digits]. change (digit_val 48) with 0. cbn [Z.ltb Z.compare Z.mul Z.add].
-    rewrite acc_digits_stop by (apply Hstop; lia). reflexivity.
+    rewrite (strtol_steps _ _ _ _ _ _ (lstrip_nonspace 48 rest eq_refl) (split_sign_none 48 rest ltac:(discriminate) ltac:(discriminate)) Hb).
+    cbn [acc_digits]. change (digit_val 48) with 0. change (0 <? 8) with true. cbv iota.
+    change (0 * 8 + 0) with 0. rewrite acc_digits_stop by (apply Hstop; lia). reflexivity.
   - destruct (print_udec_head n) as (d & r & Hr & Hd); [lia|].
     destruct (print_udec_spec n Hn) as [Hv Hdig].
-    unfold strtol. rewrite Hr. cbn [app]. unfold lstrip. cbn [drop_while]. rewrite is_space_digit by exact Hd.
-    unfold split_sign, cMINUS, cPLUS. replace (48 + d =? 45) with false by lia. replace (48 + d =? 43) with false by lia.
-    rewrite split_base_dec by exact Hd.
-    change ((48 + d) :: r ++ rest) with (((48 + d) :: r) ++ rest). rewrite <- Hr.
-    rewrite acc_digits_value; [rewrite Hv; reflexivity|exact Hdig|apply Hstop; lia].
+    assert (E : print_udec n ++ rest = (48 + d) :: (r ++ rest)) by (rewrite Hr; reflexivity).
+    rewrite E.
+    assert (Hm : 48 + d <> cMINUS) by (unfold cMINUS; lia).
+    assert (Hp : 48 + d <> cPLUS) by (unfold cPLUS; lia).
+    rewrite (strtol_steps _ _ _ _ _ _ (lstrip_nonspace _ (r ++ rest) (is_space_digit d Hd))
+               (split_sign_none _ _ Hm Hp) (split_base_dec d _ Hd)).
+    rewrite <- E. rewrite acc_digits_value; [rewrite Hv; reflexivity|exact Hdig|apply Hstop; lia].
 Qed.
 
 Lemma strtol_neg_udec n rest : 0 < n -> (match rest with [] => True | c :: _ => digit_val c = 99 end) ->
@@ -134,11 +153,9 @@ Proof.
   { destruct rest; [exact I|]. cbn in *. lia. }
   destruct (print_udec_head n) as (d & r & Hr & Hd); [lia|].
   destruct (print_udec_spec n) as [Hv Hdig]; [lia|].
-  unfold strtol. unfold lstrip. cbn [drop_while]. change (is_space cMINUS) with false. cbv iota.
-  unfold split_sign. change (cMINUS =? cMINUS) with true. cbv iota.
-  rewrite Hr. cbn [app]. rewrite split_base_dec by exact Hd.
-  change ((48 + d) :: r ++ rest) with (((48 + d) :: r) ++ rest). rewrite <- Hr.
-  rewrite acc_digits_value; [rewrite Hv; reflexivity|exact Hdig|exact Hstop].
+  assert (E : print_udec n ++ rest = (48 + d) :: (r ++ rest)) by (rewrite Hr; reflexivity).
+  rewrite (strtol_steps _ _ _ _ _ _ (lstrip_nonspace cMINUS _ eq_refl) (split_sign_minus _) (eq_trans (f_equal split_base E) (split_base_dec d _ Hd))).
+  rewrite <- E. rewrite acc_digits_value; [rewrite Hv; reflexivity|exact Hdig|exact Hstop].
 Qed.
 
 (* ---- the text "%d" / "%lld" prints is read back; texts outside long are flagged ---- *)
@@ -170,23 +187,23 @@ Proof.
 Qed.
 
 (* a general numeral: optional sign, then digits of the base selected by the prefix *)
-Theorem strtol_hex neg ds rest : ds <> [] -> Forall (is_digit 16) ds -> stops 16 rest ->
+Theorem strtol_hex (neg : bool) (ds rest : str) : ds <> [] -> Forall (is_digit 16) ds -> stops 16 rest ->
   forall x, x = 120 \/ x = 88 ->
   strtol ((if neg then [cMINUS] else []) ++ c0 :: x :: ds ++ rest) = clamp_long neg (horner 16 0 ds).
 Proof.
   intros Hne Hds Hrest x Hx. destruct ds as [|h t]; [contradiction|].
   assert (Hh : digit_val h <? 16 = true). { inversion Hds; subst. unfold is_digit in *. lia. }
   assert (Hxx : (x =? 120) || (x =? 88) = true) by (destruct Hx; subst; reflexivity).
-  unfold strtol. destruct neg; cbn [app lstrip drop_while].
-  - change (is_space cMINUS) with false. cbv iota. unfold split_sign. change (cMINUS =? cMINUS) with true. cbv iota.
-    unfold split_base. change (c0 =? c0) with true. cbv iota. rewrite Hxx, Hh. cbn [andb].
+  assert (Hb : split_base (c0 :: x :: (h :: t) ++ rest) = (16, (h :: t) ++ rest)).
+  { unfold split_base. cbn [app]. change (c0 =? c0) with true. cbv iota. rewrite Hxx, Hh. reflexivity. }
+  destruct neg; cbn [app] in *.
+  - rewrite (strtol_steps _ _ _ _ _ _ (lstrip_nonspace cMINUS _ eq_refl) (split_sign_minus _) Hb).
     change (h :: t ++ rest) with ((h :: t) ++ rest). rewrite acc_digits_value by assumption. reflexivity.
-  - change (is_space c0) with false. cbv iota. unfold split_sign. change (c0 =? cMINUS) with false. change (c0 =? cPLUS) with false. cbv iota.
-    unfold split_base. change (c0 =? c0) with true. cbv iota. rewrite Hxx, Hh. cbn [andb].
+  - rewrite (strtol_steps _ _ _ _ _ _ (lstrip_nonspace c0 _ eq_refl) (split_sign_none c0 _ ltac:(discriminate) ltac:(discriminate)) Hb).
     change (h :: t ++ rest) with ((h :: t) ++ rest). rewrite acc_digits_value by assumption. reflexivity.
 Qed.
 
-Theorem strtol_octal neg ds rest : Forall (is_digit 8) ds -> stops 8 rest ->
+Theorem strtol_octal (neg : bool) (ds rest : str) : Forall (is_digit 8) ds -> stops 8 rest ->
   (match ds ++ rest with x :: h :: _ => ((x =? 120) || (x =? 88)) && (digit_val h <? 16) = false | _ => True end) ->
   strtol ((if neg then [cMINUS] else []) ++ c0 :: ds ++ rest) = clamp_long neg (horner 8 0 ds).
 Proof.
@@ -194,16 +211,16 @@ Proof.
   assert (Hb : split_base (c0 :: ds ++ rest) = (8, c0 :: ds ++ rest)).
   { unfold split_base. change (c0 =? c0) with true. destruct (ds ++ rest) as [|x [|h t]]; try reflexivity. rewrite Hx. reflexivity. }
   assert (Hv : acc_digits 8 0 (c0 :: ds ++ rest) = horner 8 0 ds).
-  { cbn [acc_digits]. change (digit_val c0) with 0. cbn [Z.ltb Z.compare Z.mul Z.add]. apply acc_digits_value; assumption. }
-  unfold strtol. destruct neg; cbn [app lstrip drop_while].
-  - change (is_space cMINUS) with false. cbv iota. unfold split_sign. change (cMINUS =? cMINUS) with true. cbv iota.
-    rewrite Hb, Hv. reflexivity.
-  - change (is_space c0) with false. cbv iota. unfold split_sign. change (c0 =? cMINUS) with false. change (c0 =? cPLUS) with false. cbv iota.
-    rewrite Hb, Hv. reflexivity.
+  { cbn [acc_digits]. change (digit_val c0) with 0. change (0 <? 8) with true. cbv iota. change (0 * 8 + 0) with 0.
+    apply acc_digits_value; assumption. }
+  destruct neg; cbn [app].
+  - rewrite (strtol_steps _ _ _ _ _ _ (lstrip_nonspace cMINUS _ eq_refl) (split_sign_minus _) Hb). rewrite Hv. reflexivity.
+  - rewrite (strtol_steps _ _ _ _ _ _ (lstrip_nonspace c0 _ eq_refl) (split_sign_none c0 _ ltac:(discriminate) ltac:(discriminate)) Hb).
+    rewrite Hv. reflexivity.
 Qed.
 
 (* clamp_long decides exactly "fits a long" *)
-Lemma clamp_long_spec neg m : 0 <= m ->
+Lemma clamp_long_spec (neg : bool) (m : Z) : 0 <= m ->
   let v := if neg then - m else m in
   clamp_long neg m = if v <? LONG_MIN then (LONG_MIN, true) else if v >? LONG_MAX then (LONG_MAX, true) else (v, false).
 Proof.
